@@ -187,6 +187,35 @@ Proof.
   unfold first_step, art_start, art_step. cbn [a_phase]. rewrite decode_pic_frame. cbn [skipn a_uri]. reflexivity.
 Qed.
 
+(* the whole call for one source: the first request at offset 0, then the offset loop *)
+Definition art_whole (emb : bool) : art_final * list nat :=
+  let st0 := if emb then art_start uri else mkArt uri ATryFile [] 0 None in
+  match art_step st0 (CROk [pic_frame 0 0]) with
+  | inr fin => (fin, [0%nat])
+  | inl st' => let '(r, offs) := art_loop (length pic) 1 emb (a_out st') in (r, 0%nat :: offs)
+  end.
+
+Lemma art_whole_exact emb :
+  exists offs, art_whole emb = (ArtSome pic (if emb then mime else None), 0%nat :: offs) /\
+               (length offs <= length pic)%nat /\ StronglySorted lt (0%nat :: offs).
+Proof.
+  unfold art_whole.
+  assert (Hstep : art_step (if emb then art_start uri else mkArt uri ATryFile [] 0 None) (CROk [pic_frame 0 0]) =
+                  art_continue (mkArt uri (ALoop emb) (firstn (limit 0) pic) (N.of_nat (length pic)) (if emb then mime else None))).
+  { destruct emb; unfold art_start, art_step; cbn [a_phase]; rewrite decode_pic_frame; cbn [skipn a_uri]; reflexivity. }
+  rewrite Hstep. unfold art_continue. cbn [a_out a_size a_mime].
+  pose proof (firstn_length (limit 0) pic) as Hl.
+  destruct (N.ltb_spec (N.of_nat (length (firstn (limit 0) pic))) (N.of_nat (length pic))) as [Hlt | Hge].
+  - assert (Hn : (limit 0 < length pic)%nat) by lia.
+    cbn [a_out].
+    destruct (art_loop_exact (length pic - limit 0)%nat (limit 0) 1 emb (length pic) Hn eq_refl ltac:(lia))
+      as (offs & Hrun & Hcnt & Hrange & Hsorted).
+    rewrite Hrun. exists offs. split; [reflexivity|]. split; [lia|].
+    constructor; [exact Hsorted|]. apply Forall_forall. intros o Ho. specialize (Hrange o Ho). pose proof (Hlim 0%nat). lia.
+  - assert (Hall : firstn (limit 0) pic = pic) by (apply firstn_all2; lia).
+    rewrite Hall. exists []. split; [reflexivity|]. split; [cbn; lia | repeat constructor].
+Qed.
+
 End Art.
 
 (* fallback / absence / propagation: the decision table of the first two requests *)
